@@ -177,6 +177,14 @@ impl RefLc3 {
     pub fn prefetch_pc(&self) -> u16 {
         self.pc.wrapping_sub((!self.prefetch) as u16)
     }
+    /// The public `call_subroutine`: R7 <- PC, a subroutine frame whose caller is the instruction the
+    /// machine stands at (the one it last fetched), PC <- addr.
+    pub fn host_call_subroutine(&mut self, addr: u16) {
+        let caller = self.prefetch_pc();
+        self.regs[7] = RWord::i(self.pc);
+        self.push_frame(caller, addr, 0);
+        self.pc = addr;
+    }
     fn set_cc(&mut self, v: u16) {
         let cc = if v == 0 {
             2
